@@ -233,15 +233,19 @@ class TableKeyParameter(Parameter):
 
     @override
     def _decode_positioned_from_pdu(self, decode_state: DecodeState) -> ParameterValue:
-        if self.table_row is not None:
-            # the table row to be used is statically specified -> no
-            # need to decode anything!
-            phys_val = self.table_row.short_name
-        else:
-            # Use DOP to decode
-            key_dop = odxrequire(self.table.key_dop)
-            key_dop_val = key_dop.decode_from_pdu(decode_state)
+        key_dop = odxrequire(self.table.key_dop)
+        key_dop_val = key_dop.decode_from_pdu(decode_state)
 
+        if self.table_row is not None:
+            # the table row to be used is statically specified, but
+            # its key is still part of the PDU (it is put there when
+            # encoding)
+            table_row = self.table_row
+            if table_row.key != key_dop_val:
+                odxraise(
+                    f"Table key parameter {self.short_name} expected the key "
+                    f"'{str(table_row.key)}' but got '{str(key_dop_val)}'", DecodeError)
+        else:
             table_row_candidates = [x for x in self.table.table_rows if x.key == key_dop_val]
             if len(table_row_candidates) == 0:
                 raise DecodeError(f"No table row exhibiting the key '{str(key_dop_val)}' found")
@@ -249,9 +253,10 @@ class TableKeyParameter(Parameter):
                 raise DecodeError(
                     f"Multiple rows exhibiting key '{str(key_dop_val)}' found in table")
             table_row = table_row_candidates[0]
-            phys_val = table_row.short_name
 
-            # update the decode_state's table key
-            decode_state.table_keys[self.short_name] = table_row
+        phys_val = table_row.short_name
+
+        # update the decode_state's table key
+        decode_state.table_keys[self.short_name] = table_row
 
         return phys_val
